@@ -264,3 +264,30 @@ package v2
 //@                   && sil.Matchers[i].IsEqual != nil && fresh(sil.Matchers[i].IsEqual) && deref(sil.Matchers[i].IsEqual) == pbIsEqual(s.MatcherSets[0].Matchers[i].Type)
 //@                   && sil.Matchers[i].IsRegex != nil && fresh(sil.Matchers[i].IsRegex) && deref(sil.Matchers[i].IsRegex) == pbIsRegex(s.MatcherSets[0].Matchers[i].Type)
 //@   assigns nothing
+
+// ---- C06 / C15: GET /alerts/groups. Every group the dispatcher reports is listed (in the dispatcher's order) unless it
+// is muted and muted groups were not asked for; a listed group carries one entry per alert of the group, in order,
+// each built from that alert with the receivers routing gave it and the group's muting intervals exactly as the
+// group marker reported them; nothing the handler was handed (the marker's list included) is written to.
+//@ func (*API).getAlertGroupsHandler
+//@   props C06 C15
+//@   nosafe
+//@   requires api != nil
+//@   at call dynamic:field:alertGroups assert [groups-of-the-dispatcher-through-both-filters] arg2 == ret("API).alertFilter")
+//@   at call API).alertFilter assert [filter-from-the-request_s-parameters] arg0 == api && arg2 == first("parseFilter") && arg6 == nil
+//@   at call dynamic:field:groupMutedFunc assert [marker-asked-for-this-group] arg0 == ret("dynamic:field:alertGroups")[rangeindex1 + 1].RouteID && arg1 == ret("dynamic:field:alertGroups")[rangeindex1 + 1].GroupKey
+//@   at call AlertToOpenAPIAlert assert [each-alert-of-the-group-with-the-marker_s-muting-intervals] arg0 == ret("dynamic:field:alertGroups")[rangeindex1 + 1].Alerts[rangeindex2 + 1]
+//@             && arg3 == ret("dynamic:field:groupMutedFunc") && arg1 == ret("predictAlertStatus")
+//@   at call predictAlertStatus assert [status-predicted-for-this-alert] arg2 == ret("dynamic:field:alertGroups")[rangeindex1 + 1].Alerts[rangeindex2 + 1]
+//@   at call GetAlertGroupsOK).WithPayload assert [the-list-built-is-the-answer] ret2("dynamic:field:alertGroups") == nil ==> rangeindex1 + 1 == len(ret("dynamic:field:alertGroups"))
+//@   ensures [an-error-of-the-dispatcher-is-a-500] called("dynamic:field:alertGroups") && ret2("dynamic:field:alertGroups") != nil ==> !called("AlertToOpenAPIAlert") && called("NewGetAlertGroupsInternalServerError")
+//@   loop 1 invariant rangeindex < len(alertGroups) && alertGroups == ret("dynamic:field:alertGroups") && ret2("dynamic:field:alertGroups") == nil && fresh(res)
+//@   loop 1 invariant deref(params.Muted) ==> len(res) == rangeindex + 1
+//@   loop 1 invariant !deref(params.Muted) ==> len(res) == rangeindex + 1 - counttrue1("dynamic:field:groupMutedFunc")
+//@   loop 1 invariant count("dynamic:field:groupMutedFunc") == rangeindex + 1
+//@   loop 2 invariant rangeindex < len(alertGroup.Alerts) && alertGroups == ret("dynamic:field:alertGroups") && ret2("dynamic:field:alertGroups") == nil && ag != nil && fresh(ag) && len(ag.Alerts) == rangeindex + 1 && fresh(ag.Alerts) && fresh(res)
+//@   loop 2 invariant mutedBy == ret("dynamic:field:groupMutedFunc") && count("dynamic:field:groupMutedFunc") == rangeindex1 + 2
+//@   loop 2 invariant deref(params.Muted) ==> len(res) == rangeindex1 + 1
+//@   loop 2 invariant !deref(params.Muted) ==> len(res) == rangeindex1 + 1 - counttrue1("dynamic:field:groupMutedFunc") && !ret1("dynamic:field:groupMutedFunc")
+//@   noeffect dynamic:field:alertGroups API).alertFilter parseFilter receiverLabelsMap requestLogger predictAlertStatus AlertToOpenAPIAlert ModelLabelSetToAPILabelSet dynamic:field:groupMutedFunc Fingerprint
+//@   assigns nothing
